@@ -551,17 +551,11 @@ func (P *Program) loadContractFile(pkg, file string) error {
 				cur.Trusted = true
 			case "allocs":
 				cur.Allocs = true
-				for _, it := range splitTop(rc.text, ',') {
-					if strings.HasPrefix(it, "@") {
-						ms, ok := modsets[pkg+"."+it[1:]]
-						if !ok {
-							return fmt.Errorf("%s:%d: unknown modset %s", file, rc.line, it)
-						}
-						cur.AllocList = append(cur.AllocList, splitTop(ms, ',')...)
-					} else if it != "" {
-						cur.AllocList = append(cur.AllocList, it)
-					}
+				items, err := expandModset(pkg, rc.text, 0)
+				if err != nil {
+					return fmt.Errorf("%s:%d: %v", file, rc.line, err)
 				}
+				cur.AllocList = append(cur.AllocList, items...)
 			case "case":
 				c, err := mkClause(rc.text, rc.line)
 				if err != nil {
@@ -580,17 +574,9 @@ func (P *Program) loadContractFile(pkg, file string) error {
 				}
 			case "modifies":
 				cur.HasMod = true
-				var items []string
-				for _, it := range splitTop(rc.text, ',') {
-					if strings.HasPrefix(it, "@") {
-						ms, ok := modsets[pkg+"."+it[1:]]
-						if !ok {
-							return fmt.Errorf("%s:%d: unknown modset %s", file, rc.line, it)
-						}
-						items = append(items, splitTop(ms, ',')...)
-					} else {
-						items = append(items, it)
-					}
+				items, err := expandModset(pkg, rc.text, 0)
+				if err != nil {
+					return fmt.Errorf("%s:%d: %v", file, rc.line, err)
 				}
 				for _, it := range items {
 					if it == "" || it == "nothing" {
@@ -683,4 +669,30 @@ func (P *Program) loadContractFile(pkg, file string) error {
 		}
 	}
 	return nil
+}
+
+func expandModset(pkg, text string, depth int) ([]string, error) {
+	if depth > 8 {
+		return nil, fmt.Errorf("modset recursion")
+	}
+	var out []string
+	for _, it := range splitTop(text, ',') {
+		if it == "" {
+			continue
+		}
+		if strings.HasPrefix(it, "@") {
+			ms, ok := modsets[pkg+"."+it[1:]]
+			if !ok {
+				return nil, fmt.Errorf("unknown modset %s", it)
+			}
+			sub, err := expandModset(pkg, ms, depth+1)
+			if err != nil {
+				return nil, err
+			}
+			out = append(out, sub...)
+		} else {
+			out = append(out, it)
+		}
+	}
+	return out, nil
 }
